@@ -124,12 +124,17 @@ def wait(refs, num_returns=1, timeout=None, fetch_local=True):
         for r in order:
             _ensure(r)
     sched = STATE.scheduler
-    idx = 0 if sched is None else int(sched(refs))
-    idx = max(0, min(idx, len(refs) - 1))
-    done = refs[idx]
-    rest = refs[:idx] + refs[idx + 1:]
-    STATE.wait_log.append((done.func, tuple(r.serial for r in refs), done.serial))
-    return [done], rest
+    # like Ray: without a timeout the call blocks until `num_returns` objects are ready; with one it may come back with fewer
+    # (here: a single one - the other jobs are "still running"). Which ones are ready first is the scheduler's choice.
+    want = max(1, min(int(num_returns), len(refs))) if timeout is None else 1
+    ready, rest = [], list(refs)
+    while len(ready) < want:
+        idx = 0 if sched is None else int(sched(rest))
+        idx = max(0, min(idx, len(rest) - 1))
+        done = rest.pop(idx)
+        STATE.wait_log.append((done.func, tuple(r.serial for r in [done, *rest]), done.serial))
+        ready.append(done)
+    return ready, rest
 
 
 class RemoteFunction:
